@@ -16,7 +16,12 @@
 (*                 sent                                                    *)
 (*   Finalize      ResponderAct3.FinalizeHandshake: challenge as received  *)
 (*                 = own challenge                                         *)
-(* The hash is symbolic and injective: H(a, b) = <<a, b>>.                 *)
+(* The hash is symbolic and injective; a challenge is a vector of four     *)
+(* words (the 32 bytes as four 8-byte words), word i of H(a, b) being the  *)
+(* symbol [a, b, x = 0]. A nonce in an act is a record [n, f]: the value   *)
+(* and whether some of its bits were flipped in flight (f = "none" for the *)
+(* value as generated, "lo" / "mid" / "hi" for a flip in the first, a      *)
+(* middle or the last byte: a value outside the parties' nonce domain).    *)
 (*                                                                         *)
 (* With Wire = TRUE every act travels in an envelope {message, peer id,    *)
 (* signature}. A receiver first checks that the peer id is the pinned one  *)
@@ -27,15 +32,18 @@
 (* The attacker sits on the connection. Between a send and the matching    *)
 (* receive it may (Budget times per session)                               *)
 (*   Alter   change one field of the message in flight to another value of *)
-(*           its domain; on the wire also the envelope's peer id, or       *)
-(*           re-sign the envelope with its own key                         *)
+(*           its domain; flip bits of a raw nonce (AlterNonceBits) or of   *)
+(*           one word of a challenge (AlterWord i, for every i) so that    *)
+(*           the value differs from the right one in a few bytes only; on  *)
+(*           the wire also the envelope's peer id, or re-sign the envelope *)
+(*           with its own key                                              *)
 (*   Replay  substitute the corresponding act recorded in another session  *)
 (*           of the same two peers (with its original, valid signature)    *)
 (* The other session is an honest run with its own nonces, chosen from the *)
 (* same small domain, so recorded values may or may not coincide with the  *)
 (* current ones.                                                           *)
 (***************************************************************************)
-EXTENDS Naturals, FiniteSets
+EXTENDS Naturals, FiniteSets, Sequences
 
 CONSTANTS Nonces,     \* nonce domain
           Protocols,  \* protocol identifiers
@@ -43,8 +51,12 @@ CONSTANTS Nonces,     \* nonce domain
           Budget      \* attacker actions per session
 
 Peers == {"I", "R", "X"}              \* initiator, responder, attacker's own identity
-H(a, b) == <<a, b>>
-Challenges == Nonces \X Nonces
+Words == 1..4
+NV(n) == [n |-> n, f |-> "none"]                      \* a nonce as generated
+NonceVals == [n : Nonces, f : {"none", "lo", "mid", "hi"}]
+H(a, b) == [i \in Words |-> [a |-> a, b |-> b, x |-> 0]]
+Challenges == { H(NV(a), NV(b)) : a \in Nonces, b \in Nonces }
+NoNonce == [n |-> 0, f |-> "none"]
 
 VARIABLES
     ip, rp,        \* protocol ids the initiator / the responder run
@@ -65,7 +77,7 @@ Env(act, m, who) == [act |-> act, m |-> m, pid |-> who, sig |-> [by |-> who, ove
 
 Init ==
     /\ ip \in Protocols /\ rp \in Protocols
-    /\ n1 \in Nonces /\ n2 = 0 /\ rn1 = 0
+    /\ n1 \in Nonces /\ n2 = 0 /\ rn1 = NoNonce
     /\ old \in [n1 : Nonces, n2 : Nonces, p : Protocols]
     /\ ist = "start" /\ rst = "start" /\ pin = ""
     /\ net = None
@@ -79,7 +91,7 @@ Verified(e, expected) ==
 ---------------------------------------------------------------------------
 SendAct1 ==
     /\ ist = "start" /\ net = None
-    /\ LET e == Env(1, [nonce |-> n1, proto |-> ip], "I") IN
+    /\ LET e == Env(1, [nonce |-> NV(n1), proto |-> ip], "I") IN
          /\ net' = e /\ sent' = [sent EXCEPT ![1] = e]
     /\ ist' = "wait"
     /\ UNCHANGED <<ip, rp, n1, n2, rn1, old, rst, pin, dlv, used>>
@@ -92,7 +104,7 @@ AnswerAct1 ==
     /\ IF Verified(net, net.pid) /\ net.m.proto = rp
           THEN \E x \in Nonces :
                  /\ n2' = x /\ rn1' = net.m.nonce
-                 /\ LET e == Env(2, [nonce |-> x, chal |-> H(net.m.nonce, x), proto |-> rp], "R") IN
+                 /\ LET e == Env(2, [nonce |-> NV(x), chal |-> H(net.m.nonce, NV(x)), proto |-> rp], "R") IN
                       /\ net' = e /\ sent' = [sent EXCEPT ![2] = e]
                  /\ rst' = "wait"
           ELSE /\ rst' = "failed" /\ net' = None
@@ -105,7 +117,7 @@ CheckAct2 ==
     /\ dlv' = [dlv EXCEPT ![2] = net]
     /\ IF /\ Verified(net, "R")
           /\ net.m.proto = ip
-          /\ H(n1, net.m.nonce) = net.m.chal
+          /\ H(NV(n1), net.m.nonce) = net.m.chal
           THEN LET e == Env(3, [chal |-> net.m.chal], "I") IN
                  /\ net' = e /\ sent' = [sent EXCEPT ![3] = e]
                  /\ ist' = "done"
@@ -116,7 +128,7 @@ CheckAct2 ==
 Finalize ==
     /\ rst = "wait" /\ net # None /\ net.act = 3
     /\ dlv' = [dlv EXCEPT ![3] = net]
-    /\ rst' = IF Verified(net, pin) /\ net.m.chal = H(rn1, n2) THEN "done" ELSE "failed"
+    /\ rst' = IF Verified(net, pin) /\ net.m.chal = H(rn1, NV(n2)) THEN "done" ELSE "failed"
     /\ net' = None
     /\ UNCHANGED <<ip, rp, n1, n2, rn1, old, ist, pin, sent, used>>
 
@@ -133,13 +145,29 @@ ResponderSeesClose ==
 ---------------------------------------------------------------------------
 \* attacker
 
-FieldValues(f) == IF f = "nonce" THEN Nonces ELSE IF f = "proto" THEN Protocols ELSE Challenges
+FieldValues(f) == IF f = "nonce" THEN {NV(k) : k \in Nonces} ELSE IF f = "proto" THEN Protocols ELSE Challenges
 
 AlterField ==
     /\ net # None /\ used < Budget
     /\ \E f \in DOMAIN net.m : \E v \in FieldValues(f) :
           /\ v # net.m[f]
           /\ net' = [net EXCEPT !.m = [net.m EXCEPT ![f] = v]]   \* the signature still covers the old bytes
+    /\ used' = used + 1
+    /\ UNCHANGED <<ip, rp, n1, n2, rn1, old, ist, rst, pin, sent, dlv>>
+
+\* a few bits of the raw nonce in flight
+AlterNonceBits ==
+    /\ net # None /\ used < Budget /\ "nonce" \in DOMAIN net.m
+    /\ \E pos \in {"lo", "mid", "hi"} :
+          /\ net.m.nonce.f # pos
+          /\ net' = [net EXCEPT !.m.nonce.f = pos]
+    /\ used' = used + 1
+    /\ UNCHANGED <<ip, rp, n1, n2, rn1, old, ist, rst, pin, sent, dlv>>
+
+\* a few bits of word i of the challenge in flight
+AlterWord ==
+    /\ net # None /\ used < Budget /\ "chal" \in DOMAIN net.m
+    /\ \E i \in Words : net' = [net EXCEPT !.m.chal[i].x = 1 - @]
     /\ used' = used + 1
     /\ UNCHANGED <<ip, rp, n1, n2, rn1, old, ist, rst, pin, sent, dlv>>
 
@@ -154,9 +182,9 @@ AlterEnvelope ==
 
 \* the acts of the recorded session, as they were sent then
 OldAct(a) ==
-    IF a = 1 THEN Env(1, [nonce |-> old.n1, proto |-> old.p], "I")
-    ELSE IF a = 2 THEN Env(2, [nonce |-> old.n2, chal |-> H(old.n1, old.n2), proto |-> old.p], "R")
-    ELSE Env(3, [chal |-> H(old.n1, old.n2)], "I")
+    IF a = 1 THEN Env(1, [nonce |-> NV(old.n1), proto |-> old.p], "I")
+    ELSE IF a = 2 THEN Env(2, [nonce |-> NV(old.n2), chal |-> H(NV(old.n1), NV(old.n2)), proto |-> old.p], "R")
+    ELSE Env(3, [chal |-> H(NV(old.n1), NV(old.n2))], "I")
 
 Replay ==
     /\ net # None /\ used < Budget
@@ -166,14 +194,14 @@ Replay ==
 
 Next == \/ SendAct1 \/ AnswerAct1 \/ CheckAct2 \/ Finalize
         \/ InitiatorSeesClose \/ ResponderSeesClose
-        \/ AlterField \/ AlterEnvelope \/ Replay
+        \/ AlterField \/ AlterNonceBits \/ AlterWord \/ AlterEnvelope \/ Replay
 
 Spec == Init /\ [][Next]_vars
 
 ---------------------------------------------------------------------------
 TypeOK ==
     /\ ist \in {"start", "wait", "done", "failed"} /\ rst \in {"start", "wait", "done", "failed"}
-    /\ used \in 0..Budget /\ n2 \in Nonces \cup {0} /\ rn1 \in Nonces \cup {0}
+    /\ used \in 0..Budget /\ n2 \in Nonces \cup {0} /\ rn1 \in NonceVals \cup {NoNonce}
 
 BothDone == ist = "done" /\ rst = "done"
 Unaltered(a) == sent[a] # None /\ dlv[a] = sent[a]
@@ -191,22 +219,29 @@ CompleteIff ==
 
 \* ... and then both hold the challenge derived from both nonces
 Agreement ==
-    BothDone => /\ rn1 = n1
-                /\ dlv[2].m.chal = H(n1, n2) /\ dlv[2].m.nonce = n2
-                /\ dlv[3].m.chal = H(n1, n2)
+    BothDone => /\ rn1 = NV(n1)
+                /\ dlv[2].m.chal = H(NV(n1), NV(n2)) /\ dlv[2].m.nonce = NV(n2)
+                /\ dlv[3].m.chal = H(NV(n1), NV(n2))
 
 \* each side on its own: what it accepted is consistent with its own nonce
 InitiatorSound ==
-    ist = "done" => dlv[2].m.proto = ip /\ dlv[2].m.chal = H(n1, dlv[2].m.nonce)
+    ist = "done" => dlv[2].m.proto = ip /\ dlv[2].m.chal = H(NV(n1), dlv[2].m.nonce)
 ResponderSound ==
     rst = "done" => /\ dlv[1].m.proto = rp
-                    /\ dlv[3].m.chal = H(dlv[1].m.nonce, n2)
+                    /\ dlv[3].m.chal = H(dlv[1].m.nonce, NV(n2))
 
 \* on the wire: a completed side only ever accepted envelopes signed by the pinned peer
 WireSound ==
     Wire => /\ ist = "done" => (dlv[2].pid = "R" /\ dlv[2].sig = [by |-> "R", over |-> dlv[2].m])
             /\ rst = "done" => (dlv[3].pid = pin /\ dlv[3].sig = [by |-> pin, over |-> dlv[3].m]
                                 /\ dlv[1].sig = [by |-> pin, over |-> dlv[1].m])
+
+\* every word counts: a side that completes accepted a challenge none of whose
+\* words (and a nonce none of whose bits) had been touched
+NoTouchedWordAccepted ==
+    /\ ist = "done" => (\A i \in Words : dlv[2].m.chal[i].x = 0)
+    /\ rst = "done" => (\A i \in Words : dlv[3].m.chal[i].x = 0)
+    /\ BothDone => dlv[1].m.nonce.f = "none" /\ dlv[2].m.nonce.f = "none"
 
 \* a mismatch of protocol ids can never end in two completed sides
 ProtocolMismatchFails == (ip # rp /\ Over /\ pin # "X") => ~BothDone
